@@ -219,3 +219,43 @@ impl Default for Config {
         Self::new()
     }
 }
+
+#[cfg(any(rust_cc_verif, kani))]
+impl Config {
+    /// Returns the current byte threshold (verification hook, read-only).
+    #[inline]
+    pub fn verif_bytes_threshold(&self) -> usize {
+        self.bytes_threshold
+    }
+}
+
+/// Runs `Config::should_collect` on an arbitrary configuration (verification kernel).
+#[cfg(any(rust_cc_verif, kani))]
+#[inline(never)]
+pub fn verif_policy_should_collect(
+    bytes_threshold: usize,
+    buffered_threshold: usize, // 0 = None
+    auto_collect: bool,
+    allocated_bytes: usize,
+    buffered: usize,
+) -> bool {
+    let mut config = Config::new();
+    config.bytes_threshold = bytes_threshold;
+    config.buffered_threshold = NonZeroUsize::new(buffered_threshold);
+    config.auto_collect = auto_collect;
+    let state = State::verif_with_allocated(allocated_bytes);
+    let pc = PossibleCycles::verif_with_size(buffered);
+    config.should_collect(&state, &pc)
+}
+
+/// Runs `Config::adjust` on an arbitrary configuration and returns the new byte threshold (verification kernel).
+#[cfg(any(rust_cc_verif, kani))]
+#[inline(never)]
+pub fn verif_policy_adjust(bytes_threshold: usize, adjustment_percent: f64, allocated_bytes: usize) -> usize {
+    let mut config = Config::new();
+    config.bytes_threshold = bytes_threshold;
+    config.adjustment_percent = adjustment_percent;
+    let state = State::verif_with_allocated(allocated_bytes);
+    config.adjust(&state);
+    config.bytes_threshold
+}
